@@ -1955,6 +1955,27 @@ func (ss *ServerSession) handle(ctx context.Context, req *jsonrpc.Request) (any,
 		}
 	}
 
+	// The version must also be one that this session's transport can serve
+	// (the HTTP+SSE transport, for one, cannot serve 2026-07-28, and
+	// server/discover says so). server/discover itself is exempt: it is how a
+	// client learns the versions on offer.
+	if validatedMeta.usesNewProtocol && req.Method != methodDiscover {
+		ss.mu.Lock()
+		served := ss.supportedVersions
+		ss.mu.Unlock()
+		if served != nil && !slices.Contains(served, validatedMeta.initializeParams.ProtocolVersion) {
+			data, _ := json.Marshal(UnsupportedProtocolVersionData{
+				Supported: served,
+				Requested: validatedMeta.initializeParams.ProtocolVersion,
+			})
+			return nil, &jsonrpc.Error{
+				Code:    CodeUnsupportedProtocolVersion,
+				Message: "unsupported protocol version",
+				Data:    data,
+			}
+		}
+	}
+
 	switch req.Method {
 	case methodInitialize, methodPing, notificationInitialized, notificationRootsListChanged, methodSetLevel, methodSubscribe, methodUnsubscribe:
 		if validatedMeta.usesNewProtocol {
